@@ -813,7 +813,7 @@ def evaluate__matches(self: XPathFunction, context: ta.ContextType = None) -> bo
         for c in self.get_argument(context, 2, required=True, cls=str):
             if c in 'smix':
                 flags |= getattr(re, c.upper())
-            elif c == 'q' and self.parser.version > '2':
+            elif c == 'q' and self.parser.version >= '3.0':
                 pattern = re.escape(pattern)
             else:
                 raise self.error('FORX0001', "Invalid regular expression flag %r" % c)
@@ -848,7 +848,7 @@ def evaluate__replace(self: XPathFunction, context: ta.ContextType = None) -> st
         for c in self.get_argument(context, 3, required=True, cls=str):
             if c in 'smix':
                 flags |= getattr(re, c.upper())
-            elif c == 'q' and self.parser.version > '2':
+            elif c == 'q' and self.parser.version >= '3.0':
                 pattern = re.escape(pattern)
                 q_flag = True
             else:
@@ -900,7 +900,7 @@ def evaluate__tokenize(self: XPathFunction, context: ta.ContextType = None) -> t
         for c in self.get_argument(context, 2, required=True, cls=str):
             if c in 'smix':
                 flags |= getattr(re, c.upper())
-            elif c == 'q' and self.parser.version > '2':
+            elif c == 'q' and self.parser.version >= '3.0':
                 pattern = re.escape(pattern)
             else:
                 raise self.error('FORX0001', "Invalid regular expression flag %r" % c)
